@@ -567,6 +567,9 @@ func genBpmKey(r *Rng, p *pool, tier string, it int, emit Emit) {
 			buf = buf[:r.Pick(0, 31, 20)]
 		case 3:
 			alg, buf = r.Pick(4, 0xc, 0xd, 0x12), r.Bytes(r.Pick(32, 21, 47, 63, 0)) // wrong length for the algorithm
+			if alg == 0x12 && len(buf) == 32 {
+				buf = buf[:31] // 32 bytes IS the SM3 length; the model's hash oracle is instantiated for SHA-256 only
+			}
 		}
 		args = append(args, N(usage), N(uint64(alg)), H(buf))
 	}
